@@ -17,7 +17,11 @@ Others(rt) ==
     \cup (IF rt \in {"access", "call", "auth"} THEN {"status", "header", "status-redirect", "header-location"} ELSE {})
     \cup (IF rt = "auth" THEN {"tokenevent"} ELSE {})
     \cup (IF rt # "get" THEN {"value"} ELSE {})
-Alphabet(rt) == Replies(rt) \cup Others(rt)
+\* steps that the reference treats exactly like another step of the alphabet (same branch of Do): left out of the
+\* scripts of length 3, where the alphabet enters the state count to the third power
+Redundant == {"panic-str", "panic-int", "panic-typednil", "ev-empty", "ev-wild", "ev-add-neg", "ev-remove-neg", "invalidparams-msg",
+              "header-location", "status-redirect", "try-ev-add", "try-ev-create"}
+Alphabet(rt) == IF MaxLen >= 3 THEN (Replies(rt) \cup Others(rt)) \ Redundant ELSE Replies(rt) \cup Others(rt)
 
 Aps == { [change |-> "absent", add |-> "absent", remove |-> "absent", create |-> "absent", delete |-> "absent"],
          [change |-> "ok", add |-> "ok", remove |-> "ok", create |-> "ok", delete |-> "ok"],
